@@ -157,6 +157,9 @@ func Load(dir string, allSyntax bool) *World {
 	if os.Getenv("SHOVELCHECK_NOLIFT") == "" {
 		liftReadOnlyCaptures(w.repoFuncs)
 	}
+	if os.Getenv("SHOVELCHECK_NOCANON") == "" {
+		canonicaliseComparisons(w.repoFuncs)
+	}
 	sort.Slice(w.repoFuncs, func(i, j int) bool {
 		a, b := w.repoFuncs[i], w.repoFuncs[j]
 		if a.Pos() != b.Pos() {
